@@ -366,7 +366,8 @@ class Model():
         self._validate_association(association)
 
         # Optional field for extra association data
-        association.extras = {}
+        if not hasattr(association, 'extras'):
+            association.extras = {}
 
         field_names = self.get_association_field_names(association)
 
@@ -703,7 +704,7 @@ class Model():
 
         if association.extras:
             # Add optional metadata to dict
-            association_dict['extras'] = association.extras
+            association_dict['extras'] = association.extras.as_dict()
 
         return association_dict
 
@@ -831,7 +832,8 @@ class Model():
                     [model.get_asset_by_id(int(id)) for id in targets]
                 )
 
-            #TODO Properly handle extras
+            if 'extras' in assoc_entry:
+                association.extras = assoc_entry['extras']
 
             model.add_association(association)
 
